@@ -200,7 +200,12 @@ class CallsMixin:
         for cl in c.get('ghost'):
             self.ghost_assign(st, env_post, cl)
         for cl in c.get('ensures'):
-            st.assume(self.sev_bool(env_post, cl.expr))
+            try:
+                st.assume(self.sev_bool(env_post, cl.expr))
+            except Unsupported as ex:
+                if 'unknown name' in str(ex):
+                    continue          # a clause about the callee's locals: not visible to callers
+                raise
         self.after_call_hooks(st, key, rb, old, e)
         if len(results) == 1:
             return results[0]
@@ -432,6 +437,7 @@ class CallsMixin:
         for (rn, rt, oid) in rs:
             if oid is not None:
                 st.env[oid] = self.lay.zero(rt); st.names[rn] = oid; st.results[rn] = oid
+        self.rtype_stack = getattr(self, 'rtype_stack', []) + [[rt for (_, rt, _) in rs]]
         try:
             try:
                 self.block(st, d['Body'].get('List', []) or [])
@@ -439,6 +445,7 @@ class CallsMixin:
             except ReturnEx as r:
                 vals = r.vals
         finally:
+            self.rtype_stack.pop()
             st.names = saved_names
             st.results = saved_results
             st.defers = saved_defers
@@ -460,6 +467,8 @@ class CallsMixin:
         for fld in (lit['Type'].get('Results') or {}).get('List', []) or []:
             for n in fld.get('Names') or []:
                 st.env[n['obj']['id']] = self.lay.zero(fld['Type']['t']); st.results[n['Name']] = n['obj']['id']; rs.append(n['obj']['id'])
+        lrts = [fld['Type'].get('t') for fld in (lit['Type'].get('Results') or {}).get('List', []) or [] for _ in (fld.get('Names') or [None])]
+        self.rtype_stack = getattr(self, 'rtype_stack', []) + [lrts]
         try:
             try:
                 self.block(st, lit['Body'].get('List', []) or [])
@@ -467,6 +476,7 @@ class CallsMixin:
             except ReturnEx as r:
                 vals = r.vals
         finally:
+            self.rtype_stack.pop()
             st.names = saved_names
             st.results = saved_results
         return vals[0] if len(vals) == 1 else TupleV(vals)
